@@ -10,6 +10,7 @@
   property allows to be one of several) are validated, not predicted.
 -/
 import ZapModel.Script
+import ZapModel.Spec
 import ZapModel.EncCheck
 import Std.Data.HashMap
 
@@ -35,6 +36,10 @@ structure St where
   batchLines : List Cmd := []
   pending : Option Cmd := none
   kinds : Std.HashMap String Nat := {}
+  segBatch : Std.HashMap String Batch := {}     -- built segments (and their reopened copies): the source batch
+  fileBatch : Std.HashMap String Batch := {}
+  specChecked : Nat := 0
+  specDiffs : List String := []
 
 def St.seg? (st : St) (n : String) : Option Seg := (st.segs.get? n).map (·.1)
 
@@ -126,11 +131,49 @@ def thesObs (s : Seg) (c : Cmd) : String :=
   let strs := sortStrs (pairs.map (fun p => s!"{hx p.1}:{p.2}"))
   if strs.isEmpty then "-" else ",".intercalate strs
 
+/-- Three-way check: where the segment was built directly from a batch, the
+    model's answer is also compared with `Spec` (the right-hand sides of the
+    theorems), so that a wrong statement is noticed before it is proved. -/
+def specCheck (st : St) (s : Seg) (c : Cmd) : St :=
+  match st.segBatch.get? (c.arg 1) with
+  | none => st
+  | some b =>
+    let bump := fun (st : St) (ok : Bool) (what : String) =>
+      if ok then { st with specChecked := st.specChecked + 1 }
+      else { st with specChecked := st.specChecked + 1, specDiffs := st.specDiffs ++ [s!"SPECDIFF {c.lineNo} | {c.raw} | {what}"] }
+    match c.arg 0 with
+    | "post" =>
+      if c.getD "ex" "nil" == "nil" ∧ c.getD "fl" "111" == "111" ∧ (c.get? "replace").isNone
+         ∧ (parseOps (c.getD "ops" "-")).all (· == Op.next) ∧ (parseOps (c.getD "ops" "-")).length > s.numDocs then
+        let want := Spec.postings st.vectors b (strBytes (c.arg 2)) (unhx (c.arg 3))
+        match Spec.readAll s (strBytes (c.arg 2)) (unhx (c.arg 3)) with
+        | Except.ok got => bump st (got == want) s!"model {got.map (fun h => hitStr (some h))} spec {want.map (fun h => hitStr (some h))}"
+        | Except.error _ => st
+      else st
+    | "stored" =>
+      let d := (c.arg 2).toNat?.getD 0
+      if c.getD "stop" "*" == "*" then
+        match b[d]? with
+        | some doc => bump st (s.storedAll d == Spec.stored (fieldTable b) doc) "stored"
+        | none => bump st (s.storedAll d == []) "stored beyond count"
+      else st
+    | "docnums" =>
+      let ids := unhxList (c.getD "ids" "-")
+      bump st (s.docNumbers ids == Spec.docNumbers b ids) "docnums"
+    | "dv" =>
+      let fields := (parseStrList (c.getD "fields" "-")).map strBytes
+      let doc := c.nat "doc" 0
+      let (_, out) := s.visitDocValues 0 st.dvChunk none fields doc
+      let want := fields.eraseDups.flatMap (fun n => (Spec.docValues st.vectors b n doc).map (fun t => (n, t)))
+      bump st (out == want) s!"dv model {out.map (fun p => (nameStr p.1, hx p.2))} spec {want.map (fun p => (nameStr p.1, hx p.2))}"
+    | _ => st
+
 /-- Expected observation for a `q` command. -/
 def queryObs (st : St) (c : Cmd) : St × Verdict :=
   match st.segs.get? (c.arg 1) with
   | none => (st, .exact "scripterror:noseg")
   | some (s, tag) =>
+    let st := specCheck st s c
     match c.arg 0 with
     | "count" => (st, .exact (toString s.numDocs))
     | "fields" => (st, .exact (strList (s.fieldNames.map nameStr)))
@@ -190,7 +233,8 @@ def commandObs (st : St) (c : Cmd) : St × Verdict :=
       let s := buildSeg st.vectors mode b
       if mode = 0 ∧ !b.isEmpty then (st, .exact "err:chunkzero") else
       if !modeOK mode s then (st, .exact (if mode ≤ 1026 then "err:chunkzero" else "err:other")) else
-      ({ st with segs := st.segs.insert (c.arg 0) (s, st.nextTag), nextTag := st.nextTag + 1 }, .exact "ok")
+      ({ st with segs := st.segs.insert (c.arg 0) (s, st.nextTag), nextTag := st.nextTag + 1,
+                 segBatch := st.segBatch.insert (c.arg 0) b }, .exact "ok")
   | "persist" =>
     match st.seg? (c.arg 0) with
     | none => (st, .exact "scripterror:noseg")
@@ -202,6 +246,7 @@ def commandObs (st : St) (c : Cmd) : St × Verdict :=
         if limit < full then (st, .pred (fun g => g.startsWith "err:io file=0") "err:io file=0 (limit < full size)")
         else ({ st with files := st.files.insert (c.arg 1) s }, .pred (fun g => g.startsWith "ok") "ok (limit >= full size)")
       | none => ({ st with files := st.files.insert (c.arg 1) s,
+                           fileBatch := (match st.segBatch.get? (c.arg 0) with | some b => st.fileBatch.insert (c.arg 1) b | none => st.fileBatch.erase (c.arg 1)),
                            d3 := if st.d3.contains (c.arg 0) then st.d3.insert (c.arg 1) true else st.d3 },
                  .pred (fun g => g.startsWith "ok size=") "ok size=<n>")
   | "writeto" =>
@@ -218,6 +263,7 @@ def commandObs (st : St) (c : Cmd) : St × Verdict :=
     match st.files.get? (c.arg 1) with
     | none => (st, .exact "scripterror:nofile")
     | some s => ({ st with segs := st.segs.insert (c.arg 0) (s, st.nextTag), nextTag := st.nextTag + 1,
+                           segBatch := (match st.fileBatch.get? (c.arg 1) with | some b => st.segBatch.insert (c.arg 0) b | none => st.segBatch.erase (c.arg 0)),
                            d3 := if st.d3.contains (c.arg 1) then st.d3.insert (c.arg 0) true else st.d3 }, .exact "ok")
   | "close" => (st, .exact "ok")
   | "merge" =>
@@ -228,7 +274,7 @@ def commandObs (st : St) (c : Cmd) : St × Verdict :=
     let mode := c.nat "mode" st.mode
     let (m, maps) := mergeSegs st.vectors mode segs drops
     let okStr := s!"ok maps={if m.numDocs = 0 then "nil" else mapsStr maps} szeq=1"
-    let st' := { st with files := st.files.insert (c.arg 0) m,
+    let st' := { st with files := st.files.insert (c.arg 0) m, fileBatch := st.fileBatch.erase (c.arg 0),
                          d3 := if m.numDocs = 0 ∧ m.fields.length ≥ 2 then st.d3.insert (c.arg 0) true else st.d3 }
     let cl := c.getD "close" "never"
     if cl == "before" then (st, .pred (fun g => g.startsWith "err:closed file=0") "err:closed file=0")
